@@ -8,6 +8,7 @@ import NurbsVerif.Lemmas.InsertObjExamples
 import NurbsVerif.Lemmas.A54Helper
 import NurbsVerif.Lemmas.A54Kv2
 import NurbsVerif.Lemmas.KnotRowsRefineVol
+import NurbsVerif.Lemmas.UniqueRemove
 
 /-!
 # C05  Knot refinement never changes the shape
@@ -656,5 +657,26 @@ example : refineVolRows exVolQ 2 1 (1/10000000) = refineDir exVolQ 2 1 (1/100000
 /-- … and a concrete run of the rows model (u direction: rows of 2·4 points) -/
 example : (refineVolRows exVolQ 0 1 (1/10000000)).map (fun T => (T.sizes, T.kv 0)) = some ([3, 2, 4], [0,0,1/2,1,1]) := by
   decide +kernel
+
+/-! ## (S) why the specification-level model is legitimate: control points over a knot vector are unique -/
+
+/-- **Whatever returns a net with the same curve over the refined knot vector returns the fold of single
+    insertions.**  `X` admissible (`RefineOk`; discharged for the generated list by `refineX_admissible`), refined
+    knot vector and net `X.foldl insertOne (U, P)`; `R` any net of the same size and dimension over that knot
+    vector (in which no basis function vanishes on the whole domain, `AllActive`) whose curve has the points of
+    the original curve on the half-open domain: then `R` IS the fold's net (C06 `control_points_unique`).  So
+    any correct refinement algorithm – A5.4 in the code, for which this is also proved directly in (F) –
+    agrees with the specification-level model `knotRefinement`. -/
+theorem refinement_net_unique (p d : ℕ) (tol : K) (X : List K) (st : List K × List (List K))
+    (hwf : CurveWF p d st.1 st.2) (hok : RefineOk p tol st X) (R : List (List K)) (hR : NetOk d R)
+    (hlen : R.length = (X.foldl (insertOne p tol) st).2.length)
+    (hact : AllActive p (X.foldl (insertOne p tol) st).2.length (fnOf (X.foldl (insertOne p tol) st).1))
+    (hsame : ∀ u, fnOf st.1 p ≤ u → u < fnOf st.1 st.2.length → ∀ j,
+      (curvePoint p (fnOf (X.foldl (insertOne p tol) st).1) R u).getD j 0 = (curvePoint p (fnOf st.1) st.2 u).getD j 0) :
+    R = (X.foldl (insertOne p tol) st).2 :=
+  refine_fold_unique p d tol X st hwf hok R hR hlen hact hsame
+
+/-- non-vacuity of `AllActive` on a refined knot vector (the density-1 refinement of the quadratic of (A)) -/
+example : AllActive 2 9 (fnOf ([0,0,0,1/4,1/4,1/2,1/2,3/4,3/4,1,1,1] : List ℚ)) := by decide +kernel
 
 end C05
